@@ -13,6 +13,7 @@ import (
 	"math"
 	"os"
 	"path/filepath"
+	"sync"
 	"testing"
 
 	"github.com/uber-go/tally"
@@ -152,16 +153,16 @@ func lockstep(subs []subject, refs []*os.File, ops []Op, initCap int, st *stats)
 		return fi.Size(), nil
 	}
 	lastWriter := -1
+	size, err := refSize()
+	if err != nil {
+		return "" // reference I/O trouble is never a violation
+	}
 	for i, op := range ops {
 		h := op.H
 		if h < 0 || h >= len(subs) {
 			h = 0
 		}
 		s, ref := subs[h], refs[h]
-		size, err := refSize()
-		if err != nil {
-			return "" // infrastructure; handled by caller through discard
-		}
 		where := fmt.Sprintf("step %d %s", i, op.K)
 		st.ops++
 		switch op.K {
@@ -299,12 +300,9 @@ func lockstep(subs []subject, refs []*os.File, ops []Op, initCap int, st *stats)
 				return fmt.Sprintf("offset differs from os.File after %s (%s: handle %d: buffer %d, file %d)", op.K, describe(where, op, size), k, cur, rcur)
 			}
 		}
+		size = nsize
 	}
 	// Final full content.
-	size, err := refSize()
-	if err != nil {
-		return ""
-	}
 	want := make([]byte, size)
 	if _, err := refs[0].ReadAt(want, 0); err != nil && err != io.EOF {
 		return ""
@@ -364,45 +362,62 @@ func verdict(msg string, st *stats, extra ...string) pbt.Verdict {
 	return pbt.OK(st.gapWrite > 0 || st.readCrossEnd > 0, cl...)
 }
 
-// refFiles creates the reference file and n descriptors on it.
-func refFiles(n int, content []byte) (dir string, fs []*os.File, err error) {
-	dir, err = os.MkdirTemp("", "c12-")
-	if err != nil {
-		return "", nil, err
-	}
-	p := filepath.Join(dir, "ref")
-	if err = os.WriteFile(p, content, 0644); err != nil {
-		os.RemoveAll(dir)
-		return "", nil, err
-	}
-	for i := 0; i < n; i++ {
-		f, e := os.OpenFile(p, os.O_RDWR, 0644)
-		if e != nil {
-			closeAll(fs)
-			os.RemoveAll(dir)
-			return "", nil, e
-		}
-		fs = append(fs, f)
-	}
-	return dir, fs, nil
-}
+var (
+	refOnce sync.Once
+	refErr  error
+	refFDs  []*os.File // descriptors of the one reference file of this process, reused by every case
+)
 
-func closeAll(fs []*os.File) {
-	for _, f := range fs {
-		f.Close()
+// refFiles hands out n descriptors of the (emptied, then pre-filled) reference file. The
+// file lives in a scratch directory under TMPDIR, which the driver removes; it is reused
+// across cases (truncate + rewind) because creating and unlinking a file per case is the
+// dominant cost on a journalling filesystem when 16 shards run side by side.
+func refFiles(n int, content []byte) (fs []*os.File, err error) {
+	refOnce.Do(func() {
+		var dir string
+		if dir, refErr = os.MkdirTemp("", "c12-"); refErr != nil {
+			return
+		}
+		p := filepath.Join(dir, "ref")
+		for i := 0; i < 4; i++ {
+			f, e := os.OpenFile(p, os.O_RDWR|os.O_CREATE, 0644)
+			if e != nil {
+				refErr = e
+				return
+			}
+			refFDs = append(refFDs, f)
+		}
+	})
+	if refErr != nil {
+		return nil, refErr
 	}
+	if n > len(refFDs) {
+		return nil, fmt.Errorf("too many descriptors")
+	}
+	if err = refFDs[0].Truncate(0); err != nil {
+		return nil, err
+	}
+	for _, f := range refFDs[:n] {
+		if _, err = f.Seek(0, io.SeekStart); err != nil {
+			return nil, err
+		}
+	}
+	if len(content) > 0 {
+		if _, err = refFDs[0].WriteAt(content, 0); err != nil {
+			return nil, err
+		}
+	}
+	return refFDs[:n], nil
 }
 
 func runBufRW(c Case) pbt.Verdict {
 	if c.Cap < 0 || c.Cap > 1<<16 {
 		return pbt.Verdict{Discard: true}
 	}
-	dir, refs, err := refFiles(1, nil)
+	refs, err := refFiles(1, nil)
 	if err != nil {
 		return pbt.Verdict{Discard: true}
 	}
-	defer os.RemoveAll(dir)
-	defer closeAll(refs)
 	b := base.NewBufferReadWriter(uint64(c.Cap))
 	st := &stats{}
 	msg := lockstep([]subject{{r: b, w: b, wa: b}}, refs, c.Ops, c.Cap, st)
@@ -434,12 +449,10 @@ func runMemFile(c Case) pbt.Verdict {
 	if h > 4 {
 		h = 4
 	}
-	dir, refs, err := refFiles(h, nil)
+	refs, err := refFiles(h, nil)
 	if err != nil {
 		return pbt.Verdict{Discard: true}
 	}
-	defer os.RemoveAll(dir)
-	defer closeAll(refs)
 	ms, err := memory.NewStore(&memory.Config{GOMEMLIMITBytes: math.MaxInt64, CapacityBytes: 1 << 20}, tally.NoopScope)
 	if err != nil {
 		return pbt.Verdict{Discard: true}
@@ -475,12 +488,10 @@ func runMemFile(c Case) pbt.Verdict {
 }
 
 func runBufReader(c ReadCase) pbt.Verdict {
-	dir, refs, err := refFiles(1, c.Content)
+	refs, err := refFiles(1, c.Content)
 	if err != nil {
 		return pbt.Verdict{Discard: true}
 	}
-	defer os.RemoveAll(dir)
-	defer closeAll(refs)
 	content := append([]byte(nil), c.Content...)
 	r := store.NewBufferFileReader(content)
 	defer r.Close()
@@ -509,9 +520,9 @@ func TestProp(t *testing.T) {
 			"two memory.File handles of one blob are compared with two descriptors of one file (File is documented as the analogue of an open file descriptor)",
 		},
 		Parts: []pbt.Part{
+			pbt.NewPart("bufreader", 1, genRO, runBufReader),
 			pbt.NewPart("bufrw", 5, genRW(1), runBufRW),
 			pbt.NewPart("memfile", 5, genRW(2), runMemFile),
-			pbt.NewPart("bufreader", 1, genRO, runBufReader),
 		},
 	})
 }
